@@ -163,6 +163,7 @@ func qrObserve(c *fw.Ctx, req Req) (*refdec.QRResult, bool) {
 		return nil, false
 	}
 	c.Cover("outcome", "accepted")
+	retainObserve(c, "qr", o.bc, inner, 3)
 	g, err := grid2D(o.bc)
 	if err != nil {
 		c.Violation("qr/image", err.Error(), inner, "")
